@@ -344,24 +344,31 @@ def relation_new(model, R):
         want = [('x', 1, 'y'), ('y', 0, 'x')]
     R.check(got == want, 'WIRING', f, calls[0] if calls else f.node, 'families paired crosswise, each with its own position in the tuple',
             'x._pair_with(self, 0, y); y._pair_with(self, 1, x)', str(got))
-    r = [src(n.value) for n in walk(f.body) if isinstance(n, ast.Return)]
-    R.check(r == ['self'], 'WIRING', f, f.node, 'returns the paired relation', 'return self', str(r))
+    R.returns(f, 'self', 'WIRING', 'returns the paired relation', expand=False)
 
 
 def api_routes(model, R):
     for name, cls, axis in (('intension', '_Objects', 'objects'), ('extension', '_Properties', 'properties')):
         f = model.func(f'contexts.PrimeMixin.{name}')
         env = Env(f)
-        vals = [src(env.expand(n.value)) for n in walk(f.body) if isinstance(n, ast.Return)]
+        rets = sorted((n for n in walk(f.body) if isinstance(n, ast.Return) and n.value is not None), key=lambda n: n.lineno)
         want = f'self.{cls}.frommembers({f.params[1]}).prime()'
-        R.check(sorted(vals) == sorted([want, want + '.members()']), 'WIRING', f, f.node,
-                f'{name}: derivation of exactly the given {axis}, raw and label forms of the same value', f'{want}[.members()]', '; '.join(vals))
+        if len(rets) != 2:
+            R.unknown('WIRING', f, f.node, f'{name}: raw and label result', f'{len(rets)} returns')
+        else:
+            vals = [env.expand(n.value) for n in rets]
+            lab = [v for v in vals if src(v).endswith('.members()')]
+            raw = [v for v in vals if not src(v).endswith('.members()')]
+            R.expr(raw[0] if raw else None, want, 'WIRING', f, f'{name}: derivation of exactly the given {axis} (raw form)', at=rets[0])
+            R.expr(lab[0] if lab else None, want + '.members()', 'WIRING', f, f'{name}: label form of the same value', at=rets[-1])
     # Context.objects / properties / bools read the classes set up in __init__ (faithful representation of the table)
     ctx = model.cls('contexts.Context')
     for name, want in (('objects', 'self._Objects._members'), ('properties', 'self._Properties._members'), ('bools', 'self._intents.bools()')):
         m = ctx.methods.get(name)
-        r = [src(n.value) for n in walk(m.body) if isinstance(n, ast.Return)] if m else []
-        R.check(r == [want], 'WIRING', m or f'contexts.Context.{name}', m.node if m else ctx.node, f'Context.{name} reads the paired structure', want, str(r))
+        if m is None:
+            R.unknown('WIRING', f'contexts.Context.{name}', ctx.node, f'Context.{name}', 'missing')
+        else:
+            R.returns(m, want, 'WIRING', f'Context.{name} reads the paired structure')
 
 
 # ------------------------------------------------------------------ C01.c arbitrary precision
